@@ -275,3 +275,11 @@ class ElementGet:
 
     def post_value(elt, key, result):
         return result == uf('xml_attr', 'Optional[str]', elt, key)
+
+
+@external('supervisor.options.make_namespec')
+class MakeNamespec:
+    """supervisor.options.make_namespec(group, name): the namespec string, a deterministic function of both names"""
+    returns = 'str'
+    params = ['group_name', 'process_name']
+    functional = True
